@@ -471,9 +471,12 @@ struct Gen {
           std::vector<std::string> pool(sc.sources.begin(), sc.sources.end());
           for (const Stmt& q : sc.stmts) if (q.id < cid && !q.regen) for (auto& o : q.outs) if (o != dd.path) pool.push_back(o);
           std::string p = pool[C((uint32_t)pool.size())];
-          if (p == "gen.src") continue;
+          if (!s.oo_ins.empty() && C(3) == 0) p = s.oo_ins[C((uint32_t)s.oo_ins.size())];
+          if (p == "gen.src" || p == dd.path || sc.FindDyndep(p)) continue;
           bool dup = std::find(e.imp_ins.begin(), e.imp_ins.end(), p) != e.imp_ins.end();
-          for (auto* w : {&s.ins, &s.imp_ins, &s.oo_ins}) if (std::find(w->begin(), w->end(), p) != w->end()) dup = true;
+          // (a file the manifest only orders before the statement may well turn out
+          // to be a real input: order-only in the manifest, implicit in the dyndep file)
+          for (auto* w : {&s.ins, &s.imp_ins}) if (std::find(w->begin(), w->end(), p) != w->end()) dup = true;
           if (!dup) e.imp_ins.push_back(p);
         }
         if (C(3) == 0 && s.deps_kind < 2) { char ob[32]; snprintf(ob, sizeof ob, "o%dx", cid); e.imp_outs.push_back(ob); }
